@@ -8,6 +8,7 @@ import (
 	"fmt"
 	"math/big"
 	"os"
+	"runtime"
 	"strconv"
 	"strings"
 )
@@ -256,12 +257,18 @@ func Shared(ptr interface{}, name string) {}
 // Parallel runs f and g as two goroutines (natively: concurrently, repeatedly, under the
 // race detector when the check asks for it; symbolically: as two threads of a lockset analysis).
 func Parallel(f, g func()) {
-	for i := 0; i < 20; i++ {
-		done := make(chan struct{})
-		go func() { defer close(done); f() }()
+	done := make(chan struct{})
+	go func() {
+		defer close(done)
+		for i := 0; i < 300; i++ {
+			f()
+		}
+	}()
+	for i := 0; i < 300; i++ {
 		g()
-		<-done
+		runtime.Gosched()
 	}
+	<-done
 }
 
 // Races is the number of conflicting unsynchronised access pairs found by the engine
